@@ -29,6 +29,10 @@ pub struct Case {
   /// pass `--follow`: symbolic links are followed, so a dangling one is an I/O error of the walk
   #[serde(default)]
   pub follow: bool,
+  /// a project config whose languageGlobs send `*.view.js` to tsx: files of one extension then
+  /// belong to two languages, by name
+  #[serde(default)]
+  pub lang_globs: bool,
 }
 
 #[derive(Clone, Debug)]
@@ -73,6 +77,7 @@ pub fn interpret(ch: &Choice, _st: &mut Stats) -> Option<Case> {
       6 | 7 => ("ts", Kind::Source(stmts.clone())),
       8 | 9 => ("html", Kind::Source(stmts.clone())),
       10 => ("txt", Kind::Source(stmts.clone())),
+      11..=14 => ("view.js", Kind::Source(stmts.clone())),
       _ => ("js", Kind::Source(stmts.clone())),
     };
     let name = format!("{dir}f{i}.{ext}");
@@ -88,6 +93,7 @@ pub fn interpret(ch: &Choice, _st: &mut Stats) -> Option<Case> {
     files,
     scan: ch.scan,
     follow: ch.sched.first().map(|s| s % 3 == 1).unwrap_or(false),
+    lang_globs: ch.sched.get(1).map(|s| s % 2 == 0).unwrap_or(false),
     threads: ch.threads.iter().map(|t| THREADS[*t as usize % THREADS.len()]).collect(),
     sched: ch.sched.clone(),
   })
@@ -143,6 +149,9 @@ fn materialise(case: &Case) -> TempDir {
     "rule.yml",
     b"id: r-foo\nlanguage: JavaScript\nseverity: error\nmessage: found $A\nrule:\n  pattern: foo($A)\n---\nid: r-bar\nlanguage: JavaScript\nseverity: warning\nrule:\n  pattern: bar($$$)\nfix: baz()\n",
   );
+  if case.lang_globs {
+    dir.write("sgconfig.yml", b"ruleDirs: [norules]\nlanguageGlobs:\n  tsx: ['*.view.js']\n");
+  }
   // the unprivileged user must be able to traverse the tree
   let _ = Command::new("chmod").arg("-R").arg("a+rX").arg(dir.path.join("tree")).output();
   for (name, kind) in &case.files {
@@ -325,6 +334,9 @@ pub fn check(case: &Case, st: &mut Stats) -> CheckResult {
     }
     st.label(&format!("threads_{threads}"));
   }
+  if case.lang_globs && case.files.iter().any(|(n, _)| n.ends_with(".view.js")) {
+    st.label("one_extension_two_languages(languageGlobs)");
+  }
   for (_, k) in &case.files {
     match k {
       Kind::Source(_) => {}
@@ -349,7 +361,7 @@ pub fn check(case: &Case, st: &mut Stats) -> CheckResult {
 pub fn run(cfg: &RunCfg) -> i32 {
   let mut report = Report::new(
     cfg,
-    "case = directory tree of 5-99 files (JavaScript, TypeScript, HTML hosts, foreign files; faults: empty, invalid UTF-8, > 3 MB and > 200k lines, mode 000 under an unprivileged uid, dangling symlink, directory named like a source file) given as one root to `run -p foo($A) -l js` or `scan -r rule.yml`, with 6 (quick) / 12 (thorough) runs per tree over --threads in {1,2,3,4,8,16}; two thirds of the runs use the cfg(ast_grep_verif) hook to delay producers by a generated schedule seed. Reference = union of single-file, single-thread runs. Per run: well-formed JSON stream, record multiset equal to the reference (no loss, no duplicate), exit status, and the --inspect summary accounting for every eligible file exactly once. evaluations = tree runs. Non-trivial = distinct case with >= 8 matching files and >= 2 threads.",
+    "case = directory tree of 5-99 files (JavaScript, TypeScript, HTML hosts, foreign files; faults: empty, invalid UTF-8, > 3 MB and > 200k lines, mode 000 under an unprivileged uid, dangling symlink, directory named like a source file) given as one root to `run -p foo($A) -l js` or `scan -r rule.yml`, in half of the cases inside a project whose languageGlobs send `*.view.js` to tsx (one extension, two languages), with 6 (quick) / 12 (thorough) runs per tree over --threads in {1,2,3,4,8,16}; two thirds of the runs use the cfg(ast_grep_verif) hook to delay producers by a generated schedule seed. Reference = union of single-file, single-thread runs. Per run: well-formed JSON stream, record multiset equal to the reference (no loss, no duplicate), exit status, and the --inspect summary accounting for every eligible file exactly once. evaluations = tree runs. Non-trivial = distinct case with >= 8 matching files and >= 2 threads.",
   );
   report.assume("the harness perturbs producer timing and thread counts; it does not enumerate interleavings nor control the OS scheduler");
   report.assume("mode-000 files are exercised with `setpriv --reuid=65534` when available");
